@@ -19,7 +19,7 @@ PROPERTY = {
     'outside': ['the explicit remove-this-key idiom for idempotence (value-less !del, !del {} / !del [])', 'key orders other than the original and its reversal',
                 'adding !notnew / safe=True markers'],
     'per_split_timeout': {'quick': 600, 'thorough': 1800},
-    'wall_budget': {'quick': 900, 'thorough': 3400},
+    'wall_budget': {'quick': 1500, 'thorough': 7000},
 }
 
 
